@@ -2367,7 +2367,7 @@ class Executor:
             if name in ("scope", "get_evidence") and not args:
                 # a list of variable names, a pure function of the object
                 f = z3.Function(f"opaque_{name}", Opaque, set_sort(Atom))
-                return Coll("list", Atom, f(recv.z))
+                return Coll("list", Atom, f(recv.z), nodup=True)   # a scope lists each variable once (class invariant of factors)
             return Scalar(fresh(f"opq_{name}", Opaque))
         raise Unsupported(f"method {name} on {recv!r}")
 
